@@ -12,13 +12,13 @@ package protocol
 
 //@ func (c ConnectionID) Len
 //@   props C08
-//@   ensures [value] result == c.l
+//@   ensures [value] result == int(c.l)
 //@   modifies nothing
 
 //@ func (c ConnectionID) Bytes
 //@   props C08
 //@   requires c.l <= 20
-//@   ensures [len] len(result) == c.l
+//@   ensures [len] len(result) == int(c.l)
 //@   modifies nothing
 
 // ---------------- packet numbers (C05) ----------------
@@ -110,6 +110,9 @@ package protocol
 
 // ---------------- version selection (C13) ----------------
 //@ extern slices.Contains
+//@   modifies nothing
+//@ func IsSupportedVersion
+//@   props C08 C13
 //@   modifies nothing
 //@ func ChooseSupportedVersion
 //@   props C13
